@@ -49,6 +49,25 @@ class Result:
                 "path": list(self.path), "note": self.note}
 
 
+_COMMUTATIVE = (z3.Z3_OP_AND, z3.Z3_OP_OR, z3.Z3_OP_ADD, z3.Z3_OP_MUL, z3.Z3_OP_EQ, z3.Z3_OP_DISTINCT, z3.Z3_OP_IFF)
+
+
+def _canon(t, budget=None):
+    """printing of a term that does not depend on the order z3's simplifier gave to the arguments of commutative operators
+    (that order follows internal AST ids and may differ between two executions of the same path)"""
+    s = t.sexpr()
+    if len(s) > 4000 or not z3.is_app(t) or t.num_args() == 0:
+        return s
+    kids = [_canon(c) for c in t.children()]
+    if t.decl().kind() in _COMMUTATIVE:
+        kids.sort()
+    return "(%s %s)" % (t.decl().name(), " ".join(kids))
+
+
+class NoBranch(Exception):
+    """a symbolic truth test was needed while branching is switched off (speculative evaluation of a comprehension body)"""
+
+
 class Ctx:
     def __init__(self, decisions, timeout_ms=20000, branch_timeout_ms=2000):
         self.decisions = list(decisions)      # list of (choice:int, fingerprint:str)
@@ -172,7 +191,9 @@ class Ctx:
             return True
         if z3.is_false(c):
             return False
-        fp = "b:" + c.sexpr()[:200]
+        if getattr(self, "no_branch", False):
+            raise NoBranch()
+        fp = "b:" + _canon(c)[:200]
         ch = self._decide(2, fp, lambda k: self.feasible(c if k == 0 else z3.Not(c)))
         if ch == 0:
             self.assume(c)
